@@ -50,4 +50,12 @@ __CPROVER_ensures(__CPROVER_return_value <= 15)
 __CPROVER_ensures(k < 0 ==> __CPROVER_return_value == S_ERR_DOMAIN)
 /* success only if the disk of EVERY input cell succeeded */
 __CPROVER_ensures((k >= 0 && __CPROVER_return_value == 0 && 0 <= h3v_g && h3v_g < length && h3Set[h3v_g] == h3v_w) ==> h3v_werr == 0);
+/* bounded stand-in of the same clause: at most 3 input cells, segment size 7 (k == 1) */
+H3Error gridDisksUnsafe_b3(H3Index *h3Set, int length, int k, H3Index *out)
+__CPROVER_requires(h3v_n == 7 && length >= 0 && length <= 3 && h3v_werr <= 15)
+__CPROVER_requires(__CPROVER_is_fresh(h3Set, sizeof(H3Index) * 3) && __CPROVER_is_fresh(out, sizeof(H3Index) * 7 * 3))
+__CPROVER_assigns(__CPROVER_object_whole(out))
+__CPROVER_ensures(__CPROVER_return_value <= 15)
+__CPROVER_ensures(k < 0 ==> __CPROVER_return_value == S_ERR_DOMAIN)
+__CPROVER_ensures((k >= 0 && __CPROVER_return_value == 0 && 0 <= h3v_g && h3v_g < length && h3Set[h3v_g] == h3v_w) ==> h3v_werr == 0);
 #endif
